@@ -234,12 +234,21 @@ def to_tensor(x, fresh=True):
         return x.copy() if fresh else x
     if isinstance(x, SymList):
         n = x.length()
+        if not isinstance(unwrap(n), int):
+            # numpy: array([]) of an empty list is 1-d with shape (0,) whatever the elements would have been
+            if bool(S.cmp("==", n, 0)):
+                return Tensor((0,), lambda i: 0.0)
         first = x.at(0) if not isinstance(unwrap(n), int) or unwrap(n) > 0 else None
         if isinstance(first, Tensor):
             sub = first.shape
             snap = x.copy()
             return Tensor((n,) + tuple(sub), lambda i, *rest: snap.at(i).at(*rest))
-        if isinstance(first, (list, tuple, SymList)):
+        if isinstance(first, SymList):
+            # rows of equal length (numpy would build a ragged object array otherwise: outside the subset)
+            m = first.length()
+            snap = x.copy()
+            return Tensor((n, m), lambda i, j: snap.at(i).at(j))
+        if isinstance(first, (list, tuple)):
             raise Unsupported("array() of symbolic list of lists")
         snap = x.copy()
         return Tensor((n,), lambda i: snap.at(i))
@@ -539,7 +548,10 @@ def sort_inplace(t, axis=-1):
     stem = "srt_" + key
     # sorted values as a function of (position along axis, the other indices the content depends on)
     ar = 1 + len(params)
-    srt = z3.Function(stem, *([z3.IntSort()] * ar), z3.RealSort())
+    is_int = (t.dtype == "int")
+    if is_int:
+        stem += "_i"
+    srt = z3.Function(stem, *([z3.IntSort()] * ar), z3.IntSort() if is_int else z3.RealSort())
     perm = z3.Function(stem + "_perm", *([z3.IntSort()] * ar), z3.IntSort())
     inv = z3.Function(stem + "_inv", *([z3.IntSort()] * ar), z3.IntSort())
     other_axes = [k for k in range(nd) if k != axis]
@@ -572,7 +584,7 @@ def sort_inplace(t, axis=-1):
             p = perm(*canon(za, r))
             oldv = S.z(old.at(*[Sym(x) if z3.is_expr(x) else x for x in full(p, r)]))
             q = inv(*canon(za, r))
-            return z3.And(p >= 0, p < S.z(n), srt(*canon(za, r)) == S.to_real(oldv), inv(*canon(p, r)) == za,
+            return z3.And(p >= 0, p < S.z(n), srt(*canon(za, r)) == (oldv if is_int else S.to_real(oldv)), inv(*canon(p, r)) == za,
                           q >= 0, q < S.z(n), perm(*canon(q, r)) == za)
 
         c.add_forall((n,) + tuple(others), f_perm, "perm")
@@ -585,6 +597,7 @@ def sort_inplace(t, axis=-1):
 
     t.set_fn(elem, "sort")
     t.sort_info = {"perm": perm, "inv": inv, "srt": srt, "old": old, "axis": axis}
+    c.trace.append(("call", "sort", old, t))
     return None
 
 
@@ -690,7 +703,8 @@ MODELS["numpy.amin"] = np_min
 
 
 def argsort(t):
-    """1-d argsort: a permutation p with t[p[a]] non-decreasing"""
+    """1-d argsort: a permutation p with t[p[a]] non-decreasing (named canonically by the content, so the
+    contract can refer to the same arrangement the code computed)"""
     USED.add("numpy.argsort")
     c = ctx()
     if t.ndim != 1:
@@ -703,25 +717,64 @@ def argsort(t):
         vals.sort(key=lambda p: p[0])
         order = [i for _, i in vals]
         return from_nested(order) if order else Tensor((0,), lambda i: 0, dtype="int")
-    tag = str(c.fresh("argsort", "Int"))
+    key, _ = _content_key(t, 0)
+    tag = "argsort_" + key
+    p = z3.Function(tag, z3.IntSort(), z3.IntSort())
+    pinv = z3.Function(tag + "_inv", z3.IntSort(), z3.IntSort())
+    if ("argsortfacts", tag) not in c.uf_cache:
+        c.uf_cache[("argsortfacts", tag)] = True
+
+        def f_perm(a):
+            za = S.z(a)
+            return z3.And(p(za) >= 0, p(za) < S.z(n), pinv(p(za)) == za, pinv(za) >= 0, pinv(za) < S.z(n),
+                          p(pinv(za)) == za)
+
+        c.add_forall((n,), f_perm, "argsort-perm")
+
+        def f_sorted(a, b):
+            za, zb = S.z(a), S.z(b)
+            return z3.Implies(za <= zb, S.z(t.at(Sym(p(za)))) <= S.z(t.at(Sym(p(zb)))))
+
+        c.add_forall((n, n), f_sorted, "argsort-sorted")
+
+    def elem(i):
+        zi = S.z(i)
+        c.add_index_term(zi, n)
+        c.add_index_term(p(zi), n)
+        c.mark_nonneg(p(zi))
+        return Sym(p(zi))
+
+    out = Tensor((n,), elem, dtype="int")
+    out.perm_info = {"p": p, "inv": pinv}
+    c.trace.append(("call", "argsort", t, out))
+    return out
+
+
+@model("numpy.argsort")
+def np_argsort(x):
+    return argsort(to_tensor(x, fresh=False))
+
+
+@model("numpy.random.permutation")
+def np_permutation(n):
+    """a uniformly random permutation of 0..n-1: here any permutation"""
+    c = ctx()
+    if isinstance(n, Tensor):
+        raise Unsupported("permutation of an array")
+    if c.concrete:
+        import numpy as _np
+        return from_nested([int(v) for v in _np.random.permutation(int(n))])
+    tag = str(c.fresh("rperm", "Int"))
     p = z3.Function(tag, z3.IntSort(), z3.IntSort())
     pinv = z3.Function(tag + "_inv", z3.IntSort(), z3.IntSort())
 
     def f_perm(a):
         za = S.z(a)
-        return z3.And(p(za) >= 0, p(za) < S.z(n), pinv(p(za)) == za, pinv(za) >= 0, pinv(za) < S.z(n),
-                      p(pinv(za)) == za)
+        return z3.And(p(za) >= 0, p(za) < S.z(n), pinv(p(za)) == za, pinv(za) >= 0, pinv(za) < S.z(n), p(pinv(za)) == za)
 
-    c.add_forall((n,), f_perm, "argsort-perm")
-
-    def f_sorted(a, b):
-        za, zb = S.z(a), S.z(b)
-        return z3.Implies(za <= zb, S.z(t.at(Sym(p(za)))) <= S.z(t.at(Sym(p(zb)))))
-
-    c.add_forall((n, n), f_sorted, "argsort-sorted")
-    out = Tensor((n,), lambda i: Sym(p(S.z(i))), dtype="int")
-    out.perm_info = {"p": p, "inv": pinv}
-    return out
+    c.add_forall((n,), f_perm, "random-permutation")
+    c.trace.append(("draw", "permutation", tag, n))
+    return Tensor((n,), lambda i: Sym(p(S.z(i))), dtype="int")
 
 
 def py_sorted(I, x, key, reverse):
